@@ -158,6 +158,14 @@ def verify_function(ct, label=None, params=None, observe=None):
         except RecursionError as e:
             rep.status, rep.detail = "unsupported", "recursion limit"
             break
+        except (TypeError, AttributeError, KeyError, IndexError, ValueError, z3.Z3Exception) as e:
+            # the executor (or a contract's spec function) met a value shape it has no rule for - typically after an edit of
+            # the code under contract: the function is UNDECIDED (exit 2), never a pass, never a violation by itself
+            import traceback as _tb
+            rep.status = "unsupported"
+            rep.detail = "executor has no rule for a value met here (%s: %s) at %s" % (type(e).__name__, str(e)[:200], _tb.format_exc().strip().splitlines()[-3].strip()[:160])
+            rep.obligs.extend(ctx.obligs)
+            break
         worklist.extend(ctx.pending)
         for o in ctx.obligs:
             rep.obligs.append(o)
